@@ -101,7 +101,7 @@ func c03Cause(typeName string, r c03Result, d *vhDelta) string {
 	case strings.Contains(r.detail, "unexported field"):
 		return "rc_marshal_panics_on_unexported_struct_field"
 	case strings.Contains(typeName, "AddressWithWorkchain"):
-		return "rc_addresswithworkchain_key_has_no_marshaltlb"
+		return "rc_addresswithworkchain_key_encoding"
 	}
 	return "rc_unclassified/" + typeName + "/" + r.stage
 }
@@ -160,7 +160,7 @@ func TestVerifStandin_C03_RoundTrip(t *testing.T) {
 	thorough := vhThorough()
 	stat := newVhStat("c03_roundtrip")
 	fails := newVhFailures("rc_marshal_panics_on_unexported_struct_field", "rc_readbiguint_drops_leading_partial_byte", "rc_grams_ge_2pow63",
-		"rc_addresswithworkchain_key_has_no_marshaltlb")
+		"rc_addresswithworkchain_key_encoding")
 	g := newC03Gen(rng)
 	marshalErrs := map[string]int{}
 
